@@ -27,6 +27,9 @@ func init() {
 			{ID: "C06.R9", Floor: 3, Run: c01r7, Text: "column loops visit every column (= C01.R7): zeroing a vacated row must not stop at the first zero-sized component"},
 			{ID: "C06.R10", Floor: 1, Run: retireDropsReferences, Text: "references dropped on retire: every field of nodeData that can refer to a table (pointer, map or slice of table pointers) and is written at run time is updated by the retiring method, except the named exceptions"},
 			{ID: "C06.R11", Floor: 6, Run: c09r2, Text: "lock typestate (= C09.R2): removing an entity (e.g. a relation target) never leaves the world locked"},
+			{ID: "C06.R12", Floor: 3, Run: columnEffectsComplete, Text: "per-column effects are not skipped (= C01.R12): a re-used table starts empty in every column, whatever the column's type"},
+			{ID: "C06.R13", Floor: 1, Run: deactivateOnlyOnRetire, Text: "a table is marked inactive only by the retiring method (which also removes it from the target map and pushes its slot to the free list)"},
+			{ID: "C06.R14", Floor: 3, Run: targetFlagsCoverIndex, Text: "the target flags cover the index: every World.targetEntities.ExtendTo(x) has x = the capacity the index is allocated with, a capacity helper's result, or the old index length plus the increment"},
 		},
 	})
 }
